@@ -83,7 +83,8 @@ class Check:
                 'timeout': timeout,
                 'should_fail': rng.random() < 0.15,
                 'suites': suites,
-                'protocol': 'tap' if rng.random() < sw['tap_p'] else 'exitcode',
+                # (gtest is classified like exitcode; the simulated process writes no result file)
+                'protocol': 'tap' if rng.random() < sw['tap_p'] else ('gtest' if rng.random() < 0.12 else 'exitcode'),
                 'env': ['K=V'] if rng.random() < 0.1 else [],
             }
             if t['protocol'] == 'tap':
